@@ -61,6 +61,14 @@ pub struct Script {
     pub client_path: String,
     #[serde(default)]
     pub read_cap: usize,
+    /// pause (ms) the application makes before every accept_uni / accept_bi / receive_datagram
+    /// call (0 = it is always waiting)
+    #[serde(default)]
+    pub app_pace_ms: u64,
+    /// server under test: the raw client opens and resets this many bidirectional streams before
+    /// anything else, so that its CONNECT stream - the session id - is 4 * burn
+    #[serde(default)]
+    pub burn: u64,
     /// extra silence (ms) after about half of the `Gap` acts (which ones: a hash of the seed and
     /// the gap's index), so that pieces of one frame or preamble also arrive hundreds of
     /// milliseconds or seconds apart - anything timer-driven in the endpoint fires in between
@@ -170,6 +178,7 @@ pub fn run_script(script: &Script, trace: bool, prefix: &str) -> (Exec, Option<O
         let net = SimNet::new(sc.net.clone(), trace);
         *ns2.lock().unwrap() = Some(net.clone());
         wtransport::verif::set_read_cap(sc.read_cap);
+        sut::set_app_pace_ms(sc.app_pace_ms);
         let mut r = Rng::new(sc.seed, "rawscript-endpoints");
         let gap = Duration::from_millis(5) + Duration::from_micros(sc.net.lat_min_us * 3);
 
@@ -264,6 +273,16 @@ pub fn run_script(script: &Script, trace: bool, prefix: &str) -> (Exec, Option<O
         }
         let rec = rp::start_recorder(&raw_conn, false);
         net.note("quic-up");
+        if sc.server_under_test {
+            for _ in 0..sc.burn {
+                match raw_conn.open_bi().await {
+                    Ok((mut s, _r)) => {
+                        let _ = s.reset(0u32.into());
+                    }
+                    Err(e) => return Err(format!("burn: {e:?}")),
+                }
+            }
+        }
 
         let mut slots: BTreeMap<usize, Slot> = BTreeMap::new();
         let mut raw_session_id = None;
@@ -492,6 +511,8 @@ pub fn base_script(seed: u64, server_under_test: bool) -> Script {
         client_path: "/script".into(),
         read_cap: 0,
         stretch_pm: if rng.chance_pm(300) { 350 } else { 0 },
+        burn: 0,
+        app_pace_ms: 0,
         long_gap_ms: if rng.chance_pm(250) { *rng.pick(&[20u64, 600, 1_500, 4_000]) } else { 0 },
     }
 }
